@@ -985,6 +985,8 @@ class Engine:
             return ListV(LLeaf(self.fresh(name + ".arr", "arr"), n, name))
         if isinstance(t, Const):
             return t.value
+        if isinstance(t, TupleOf):
+            return tuple(self.make_fresh_of(f"{name}.{i}", e) for i, e in enumerate(t.elts))
         raise Unsupported(f"fresh of {t}")
 
     def loop_views(self, fr, extra=None):
